@@ -19,6 +19,7 @@ type Mutant struct {
 	New    string   `json:"new"`
 	Expect []string `json:"expect"` // substrings of obligation names expected to fail (informational)
 	Note   string   `json:"note,omitempty"`
+	Harmless bool   `json:"harmless,omitempty"` // a behaviour-preserving edit: must NOT raise a VIOLATION (false-alarm canary)
 }
 
 type MutantResult struct {
@@ -74,6 +75,15 @@ func runMutants(repo, verif, prop string, known *KnownFile, timeoutS int) []Muta
 			r.Failed = append(r.Failed, "UNDECIDED:"+e)
 		}
 		r.Caught = len(res.Violations) > 0
+		if m.Harmless {
+			// canary: "caught" here means the check stayed quiet
+			r.Caught = len(res.Violations) == 0
+			if !r.Caught {
+				r.Err = "FALSE ALARM on a harmless edit"
+			} else {
+				r.Err = "harmless edit, no alarm"
+			}
+		}
 		out = append(out, r)
 	}
 	return out
